@@ -84,6 +84,10 @@ def scenario_lines(sc, suffix):
           "init_read %d %d" % (s + 2, s + 2), "read %d 10" % (s + 2), "write %d hex:00" % (s + 2), "clear_error %d" % (s + 2), "validate_checksums %d" % (s + 2), "free %d" % (s + 2), "closefd %d" % (s + 2),
           "ctx %d" % (s + 2), "open %d %s rwt" % (s + 2, bad2), "pwrite %d 0 file:%s:0:%d" % (s + 2, sc["B"], h.hdr_total), "pwrite %d 50 hex:ffffffff" % (s + 2), "seek %d 0" % (s + 2),
           "init_read %d %d" % (s + 2, s + 2), "ioption %d 100 0" % (s + 2), "free %d" % (s + 2), "closefd %d" % (s + 2)]
+    # a lead whose checksum type id is not a known one (a different id per scenario): the error message names the id
+    bad3 = sc["zck"] + suffix + ".badtype"
+    L += ["ctx %d" % (s + 2), "open %d %s rwt" % (s + 2, bad3), "pwrite %d 0 hex:%s" % (s + 2, (b"\0ZCK1" + bytes([0x80 | (9 + s // 4)]) + bytes([0x80 | 40]) + bytes(60)).hex()), "seek %d 0" % (s + 2),
+          "init_read %d %d" % (s + 2, s + 2), "free %d" % (s + 2), "closefd %d" % (s + 2)]
     # fetch the rest: rounds of at most two ranges (multipart responses with a boundary of this scenario's own, fed in
     # fragments), as the documented update loop does; then validate and trim
     d = s // 4
@@ -212,6 +216,13 @@ def run(tier):
             lib += [b for b in blocks[1:] if "data race" in b.split("\n")[0] and in_library(b)]
             nrep += len(blocks) - 1
         ck.extra["tsan_reports"] = nrep; ck.extra["tsan_reports_in_library"] = len(lib)
+        known = {f["id"]: f for f in common.known_for("C19")}
+        kn = [b for b in lib if re.search(r"Location is global 'unknown'", b)]
+        lib = [b for b in lib if b not in kn]
+        known_races = []
+        if kn:
+            known_races.append({"op": "KnownRace", "location": "global 'unknown'", "listed": "C19-unknown-name-buffer" in known, "reports": len(kn)})
+        ck.extra["tsan_reports_known_finding"] = len(kn)
         races = []
         for b in lib[:5]:
             frames = re.findall(r"#\d+ (\S+) (\S+/src/lib/\S+)", b)
@@ -223,15 +234,21 @@ def run(tier):
         for t in trace:
             if t["op"] == "footprint":
                 t["raced"] = bool(lib)
+                if "C19-unknown-name-buffer" in known:
+                    t["globalsWritten"] = [g for g in t["globalsWritten"] if g != "unknown"]       # the listed finding's buffer
                 if t["staticIoBufs"] or any(g not in ALLOWED_GLOBALS for g in t["globalsWritten"]):
                     anomalies += 1
         ck.extra["footprint_anomalies"] = anomalies
         if anomalies and not lib:
             ck.notes.append("static storage / process-wide variables are used by the library but the race detector found them synchronised")
-        trace = races + trace
+        trace = races + known_races + trace
     p = os.path.join(wd, "t.ndjson"); common.write_ndjson(p, trace)
     ok, res = common.validate_trace("Trace_Threads", "Trace_Threads.cfg", p)
     ck.add_tlc("Trace_Threads", res); ck.traces += 1
+    if '"DEVIATION"' in res.out:
+        for f in common.known_for("C19"):
+            if f["id"] in res.out:
+                ck.known(f["id"], f["text"])
     rounds = 0
     while not ok and rounds < 8:
         rounds += 1
